@@ -22,7 +22,11 @@ import (
 	"github.com/influxdata/influxdb/models"
 	"github.com/influxdata/influxdb/pkg/vtcp"
 	"github.com/influxdata/influxdb/query"
+	"github.com/gogo/protobuf/types"
 	"github.com/influxdata/influxdb/services/meta"
+	"github.com/influxdata/influxdb/services/storage"
+	"github.com/influxdata/influxdb/tsdb/cursors"
+	"github.com/influxdata/influxdb/storage/reads/datatypes"
 	"github.com/influxdata/influxdb/tsdb"
 	_ "github.com/influxdata/influxdb/tsdb/engine"
 	"github.com/influxdata/influxdb/tsdb/engine/tsm1"
@@ -283,6 +287,7 @@ func (c *Cluster) newNode(id uint64) (*Node, error) {
 	cfg := coordinator.NewConfig()
 	n.Svc = coordinator.NewService(cfg)
 	n.Svc.TSDBStore = nodeStore{s, n}
+	n.Svc.Store = storage.NewStore(nodeStore{s, n}, fm)
 	n.Svc.MetaClient = fm
 	n.Svc.Server = serverStub{n.Addr}
 	timeout := 10 * time.Second
@@ -316,6 +321,7 @@ func (n *Node) Reopen() error {
 	}
 	n.Store = s
 	n.Svc.TSDBStore = nodeStore{s, n}
+	n.Svc.Store = storage.NewStore(nodeStore{s, n}, n.Svc.MetaClient.(*fakeMeta))
 	n.PW.TSDBStore = s
 	n.Mapper.TSDBStore = s
 	return nil
@@ -515,6 +521,69 @@ func (c *Cluster) Lookup(coord int, kind string) (string, error) {
 		return "estimated", err
 	}
 	return "", fmt.Errorf("unknown lookup %q", kind)
+}
+
+// StorageRead runs a storage ReadFilter (the call behind the Flux / storage API
+// read) over the whole retention policy on the coordinating node and renders
+// every series with its points.
+func (c *Cluster) StorageRead(coord int) (string, error) {
+	n := c.Nodes[coord]
+	cs := storage.NewClusterStore(nodeStore{n.Store, n}, n.Svc.MetaClient.(*fakeMeta), n.ME)
+	src, err := types.MarshalAny(&storage.ReadSource{Database: DB, RetentionPolicy: RP})
+	if err != nil {
+		return "", err
+	}
+	req := &datatypes.ReadFilterRequest{ReadSource: src, Range: datatypes.TimestampRange{Start: influxql.MinTime, End: influxql.MaxTime}}
+	rs, err := cs.ReadFilter(context.Background(), req)
+	if err != nil {
+		return "", err
+	}
+	if rs == nil {
+		return "", nil
+	}
+	defer rs.Close()
+	// a series may be emitted once per node that holds a part of it: points are collected per series key
+	series := map[string][]string{}
+	var keys []string
+	for rs.Next() {
+		key := rs.Tags().String()
+		if _, ok := series[key]; !ok {
+			keys = append(keys, key)
+		}
+		cur := rs.Cursor()
+		switch x := cur.(type) {
+		case cursors.FloatArrayCursor:
+			for a := x.Next(); a.Len() > 0; a = x.Next() {
+				for i := range a.Timestamps {
+					series[key] = append(series[key], fmt.Sprintf("%020d=%v", a.Timestamps[i], a.Values[i]))
+				}
+			}
+		case cursors.IntegerArrayCursor:
+			for a := x.Next(); a.Len() > 0; a = x.Next() {
+				for i := range a.Timestamps {
+					series[key] = append(series[key], fmt.Sprintf("%020d=%v", a.Timestamps[i], a.Values[i]))
+				}
+			}
+		case nil:
+		default:
+			series[key] = append(series[key], fmt.Sprintf("?%T", cur))
+		}
+		if cur != nil {
+			if err := cur.Err(); err != nil {
+				cur.Close()
+				return "", err
+			}
+			cur.Close()
+		}
+	}
+	var out []string
+	for _, k := range keys {
+		pts := series[k]
+		sort.Strings(pts) // a point read twice shows up twice
+		out = append(out, k+": "+strings.Join(pts, " "))
+	}
+	sort.Strings(out)
+	return strings.Join(out, "\n"), rs.Err()
 }
 
 // Row is one result series of a SELECT.
